@@ -336,7 +336,11 @@ def check_C01(c):
                      "and compared byte for byte by TLC")
     found = c.validate("TraceFile", "TraceFile.C01.cfg", path)
     _file_violations(c, found)
-    c.assumptions += ["packet sizes 1..64 so that whole payloads are logged verbatim; absolute sizes of megabytes are not covered here",
+    rc, out, path3 = c.run("TestVerif_FileBig", timeout=6000)
+    count_traces(c, path3, ["backend", "opts", "size"])
+    found = c.validate("TraceFile", "TraceFile.C01.cfg", path3)
+    _file_violations(c, found)
+    c.assumptions += ["packet sizes 1..64 so that whole payloads are logged verbatim; transfers with the default packet size (32768) and up to 64 requests in flight, sizes around multiples of the packet size up to 2-3 MB, are compared by content equality only",
                       "client packet size never exceeds the server's maximum payload (as the property requires)"]
     return c.finish()
 
@@ -347,6 +351,10 @@ def check_C12(c):
     rc, out, path = c.run("TestVerif_FileExact", env={"VERIF_SCEN": scen}, timeout=6000)
     count_traces(c, path, ["backend", "p", "conc", "creads", "cwrites", "fstat", "size", "calls"])
     found = c.validate("TraceFile", "TraceFile.C12.cfg", path)
+    _file_violations(c, found)
+    rc, out, path3 = c.run("TestVerif_FileBig", timeout=6000)
+    count_traces(c, path3, ["backend", "opts", "size"])
+    found = c.validate("TraceFile", "TraceFile.C12.cfg", path3)
     _file_violations(c, found)
     rc, out, path2 = c.run("TestVerif_CloseRace", timeout=3000)
     count_traces(c, path2, ["G", "round"])
